@@ -484,6 +484,10 @@ func (s *Server) cmdEvalUnified(scriptIsSha bool, msg *Message) (res resp.Value,
 	if err != nil {
 		return
 	}
+	// deferred first, runs last: the interpreter goes back to the pool only
+	// after its context has been removed, otherwise the next script to take
+	// it runs under (and loses) a context that is not its own
+	defer s.luapool.Put(luaState)
 	luaDeadline := lua.LNil
 	if msg.Deadline != nil {
 		dlTime := msg.Deadline.GetDeadlineTime()
@@ -493,7 +497,6 @@ func (s *Server) cmdEvalUnified(scriptIsSha bool, msg *Message) (res resp.Value,
 		defer luaState.RemoveContext()
 		luaDeadline = lua.LNumber(float64(dlTime.UnixNano()) / 1e9)
 	}
-	defer s.luapool.Put(luaState)
 
 	keysTbl := luaState.CreateTable(int(numkeys), 0)
 	for i = 0; i < numkeys; i++ {
